@@ -47,6 +47,13 @@ pub fn tip_history(out: &mut crate::Out, tag: &str, seed: u64, net: NetID) {
             } else if let Some((t, w)) = swapdrive::deposit_tx(&mut d, PoolKey::new(Denom::Mel, Denom::Sym), 3, 3, 0, &[]) {
                 d.apply(&[t], 0, json!({"why": format!("deposit at a boundary block: {}", w)}));
             }
+            if !mainnet && (k == 1 || k == 2) {
+                // faucets accepted long ago stay spent across the boundary
+                let olds: Vec<Transaction> = d.faucets.iter().take(3).cloned().collect();
+                for f in olds {
+                    d.apply(&[f], 0, json!({"why": "replay of an old faucet next to an activation boundary"}));
+                }
+            }
             if k == 1 {
                 let sp = d.spendable();
                 if let Some(c) = sp.iter().find(|(_, x)| x.coin_data.denom == Denom::Mel && x.coin_data.value.0 > 50_000_000).cloned() {
